@@ -109,6 +109,8 @@ static INSTALLED: AtomicBool = AtomicBool::new(false);
 thread_local! { static TID: Cell<Option<usize>> = const { Cell::new(None) }; }
 
 const YIELD_BUDGET: u32 = 60_000;
+/// preemption target meaning "the next runnable thread other than the running one"
+pub const OTHER: usize = 255;
 const SPIN_LIMIT: u32 = 300;
 
 fn sched() -> Option<&'static Sched> {
@@ -261,7 +263,11 @@ impl Sched {
                 return;
             }
         }
-        if let Some(p) = pref {
+        if let Some(mut p) = pref {
+            if p == OTHER {
+                // "the next runnable thread other than me" (all there is to say with two threads)
+                p = Self::pick(&st, None, t, false).unwrap_or(t);
+            }
             if p != t && p < st.ts.len() && Self::runnable(&st, p) {
                 if st.inside[t] {
                     st.info.preempt_inside = true;
